@@ -83,3 +83,7 @@ bitflags::bitflags! {
         const DEFINED = 0b00111111;
     }
 }
+
+/// Verification hooks (compiled only with `--cfg rb_verif`; see /verif/DESIGN.md).
+#[cfg(rb_verif)]
+pub use hb::verif;
